@@ -775,10 +775,10 @@ func (e *kvElection) runOnDemote(reason string) {
 		e.demoteTickets = e.demoteTickets[1:]
 	}
 	e.mu.Unlock()
-	if ticketed {
-		e.startCallback(ticket)
-	}
 
+	// Nothing of the application's (its Logger may block) stands between this
+	// callback's turn and the callback itself: the next term's OnPromote gets
+	// its turn the moment this one is counted as started.
 	if onDemote != nil {
 		log := e.getLogger()
 		log.Info("leader_demoted",
@@ -786,6 +786,11 @@ func (e *kvElection) runOnDemote(reason string) {
 				zap.String("reason", reason),
 			)...,
 		)
+	}
+	if ticketed {
+		e.startCallback(ticket)
+	}
+	if onDemote != nil {
 		onDemote()
 	}
 }
